@@ -147,8 +147,11 @@ size_t gp_convert_va_arg(
         case GP_SIGNED_CHAR:
         case GP_UNSIGNED_CHAR:
             length++;
-            if (limit > 0)
-                *(uint8_t*)out = (char)va_arg(args->list, int);
+            { // the argument has to be consumed even if it does not fit
+                const char c = (char)va_arg(args->list, int);
+                if (limit > 0)
+                    *(uint8_t*)out = c;
+            }
             break;
 
         case GP_UNSIGNED_SHORT:
